@@ -27,6 +27,7 @@ def parseConnEv (t : String) : Option ScriptEv :=
     let k := c.toNat?.getD 0
     if e = "E" then some (.conn k .peerEof)
     else if e = "R" then some (.conn k .readErr)
+    else if e = "Y" then some (.conn k .readErr)   -- a temporary, non-timeout read error: any failed Read ends the connection
     else if e = "T" then some (.conn k .readTimeout)
     else if e = "L" then some (.conn k .localClose)
     else if e = "N" then some (.conn k .requestCN)
